@@ -382,6 +382,132 @@ def summary_total(V):
     return [("the summary is printed", "CPU operators" in buf.getvalue())]  # (the per-operator lines go to stdout, not to `f`)
 
 
+def fold_disconnect(V, kind):
+    """folding an operator into a constant at compile time (SHAPE; QUANTIZE of a constant) never aborts and detaches exactly that operator: the
+    REAL convert_shape_op_to_constant_tensor / optimise_quantize on real Operation / Tensor objects whose input tensor has a symbolic consumer
+    list - the folded operator alone, or together with another operator and / or the None entry that marks a tensor that is also an output of
+    the subgraph, in every order.  Claims: no internal exception; afterwards the operator is a constant without inputs and the tensor's
+    consumer list is the old one minus the folded operator (the subgraph-output marker and the other reader stay)."""
+    import itertools
+    import numpy as np
+    import ethosu.vela.tflite_graph_optimiser as go
+    from ethosu.vela.operation import Op, Operation
+    from ethosu.vela.tensor import Tensor, QuantizationParameters
+    from ethosu.vela.data_type import DataType
+
+    def quant(scale):
+        q = QuantizationParameters()
+        q.scale_f32, q.zero_point, q.quant_min, q.quant_max = np.float32(scale), 0, -128, 127
+        return q
+
+    shape = [1, 2, 2, 2]
+    if kind == "shape":
+        ifm = Tensor(shape, DataType.int8, "y")
+        ifm.quantization = quant(0.25)
+        Operation(Op.Relu, "producer").set_output_tensor(ifm)
+        op = Operation(Op.Shape, "folded")
+        ofm = Tensor([4], DataType.int32, "s")
+    else:
+        dt = DataType.int8 if kind == "quantize_int8" else DataType.float32
+        ifm = Tensor(shape, dt, "c")
+        ifm.values = np.ones(shape, dtype=np.int8 if kind == "quantize_int8" else np.float32)
+        ifm.quantization = quant(0.25)
+        Operation(Op.Const, "const").set_output_tensor(ifm)
+        op = Operation(Op.Quantize, "folded")
+        ofm = Tensor(shape, DataType.int8, "q")
+        ofm.quantization = quant(0.5)
+    op.op_index = 1
+    op.add_input_tensor(ifm)
+    op.set_output_tensor(ofm)
+    op.run_on_npu = True
+    other = Operation(Op.Abs, "other reader")
+    other.op_index = 2
+    members = V.choice("the tensor is also read by", ("nobody else", "another operator", "the subgraph's outputs", "another operator and the subgraph's outputs"))
+    extra = {"nobody else": [], "another operator": [other], "the subgraph's outputs": [None],
+             "another operator and the subgraph's outputs": [other, None]}[members]
+    orders = sorted(set(itertools.permutations([op] + extra)), key=lambda p: [("folded", "other", "None")[0 if x is op else 1 if x is other else 2] for x in p])
+    order = orders[V.choice("order of the consumer list", tuple(range(len(orders))))] if len(orders) > 1 else orders[0]
+    ifm.consumer_list = list(order)
+    fn = go.convert_shape_op_to_constant_tensor if kind == "shape" else go.optimise_quantize
+    try:
+        fn(op, None, None)
+    except Exception as e:  # noqa: BLE001
+        if isinstance(e, (core.PathAbort, core.Infeasible)):
+            raise
+        return [("folding a %s whose input is also read by %s ends without an internal %s (%s)" % (kind, members, type(e).__name__, e), False)]
+    want = [c for c in order if c is not op]
+    got = list(ifm.consumer_list)
+    return [("the folded operator is a constant without inputs", op.type == Op.Const and op.inputs == []),
+            ("the input keeps its other readers, in order (%s)" % members, len(got) == len(want) and all(a is b for a, b in zip(got, want)))]
+
+
+def t_per_axis(V):
+    """array-valued quantisation parameters never reach code written for scalars: real Tensor / QuantizationParameters on a MAXIMUM (an operator
+    without per-axis support) whose input and output scale AND zero point are, independently, a scalar, a one-element vector or a longer vector
+    (symbolic choices).  The REAL per-axis gate (constraint_tens_quant_per_axis, a generic constraint and so evaluated first) rejects the
+    operator exactly when some parameter has more than one value; whenever it lets the operator through, the constraints behind it that compare
+    the parameters (constraint_matching_quantization_parameters, constraint_matching_in_out_quant) return a verdict - the truth value of a
+    longer array raises ValueError, which is not a Vela error."""
+    import warnings
+    import numpy as np
+    from harness.c16 import _mods
+    from ethosu.vela.operation import Op
+    from ethosu.vela.tensor import Tensor, QuantizationParameters
+    from ethosu.vela.data_type import DataType
+
+    so, sem, sh = _mods()
+    forms = ("scalar", "vector of one", "vector of three")
+    longer = []
+
+    def value(tag, v, dt):
+        f = V.choice(tag, forms)
+        if f == "scalar":
+            return dt(v)
+        if f == "vector of three":
+            longer.append(tag)
+        return np.array([v] * (1 if f == "vector of one" else 3), dtype=dt)
+
+    def tensor(name):
+        t = Tensor([1, 4, 4, 3], DataType.int8, name)
+        q = QuantizationParameters()
+        q.scale_f32, q.zero_point = value(name + " scale", 0.5, np.float32), value(name + " zero point", 3, np.int64)
+        q.quant_min, q.quant_max = -128, 127
+        t.quantization = q
+        return t
+
+    ifm, ofm = tensor("ifm"), tensor("ofm")
+    op = _O(type=Op.Maximum, ifm=ifm, ifm2=None, ofm=ofm, weights=None, inputs=[ifm], outputs=[ofm], get_ifm_ifm2_weights_ofm=lambda: (ifm, None, None, ofm), name="op")
+    T, S = so.TFLiteSupportedOperators, sem.TFLiteSemantic
+    with warnings.catch_warnings():
+        warnings.simplefilter("ignore")
+        try:
+            gate, _ = T.constraint_tens_quant_per_axis(op)
+        except Exception as e:  # noqa: BLE001
+            if isinstance(e, (core.PathAbort, core.Infeasible)):
+                raise
+            return [("the per-axis gate returns a verdict instead of raising (%s)" % type(e).__name__, False)]
+        cl = [("the per-axis gate rejects exactly the operators with a parameter of more than one value (here: %s)" % (", ".join(longer) or "none"),
+               bool(gate) == (not longer))]
+        if gate:
+            cl += _run(T.constraint_matching_quantization_parameters, op) + _run(S.constraint_matching_in_out_quant, op)
+    return cl
+
+
+def t_resize_lowering(V, **params):
+    """lowering a supported RESIZE (bilinear / nearest neighbour, with and without align_corners, x2 / x4 / x8, 8 channels, symbolic height and
+    width) to x2 stages ends without an internal exception (harness/c02.py resize_lowering: the real convert_resize_to_upscale_and_average_pool
+    incl. the depthwise selection kernel of the align_corners nearest-neighbour case)"""
+    from harness import c02
+
+    try:
+        c02.resize_lowering(V, **params)
+    except Exception as e:  # noqa: BLE001
+        if isinstance(e, (core.PathAbort, core.Infeasible, core.Inconclusive)):
+            raise
+        return [("the lowering ends without an internal %s (%s)" % (type(e).__name__, e), False)]
+    return [("the lowering ends without an internal exception", True)]
+
+
 def custom_options_total(V):
     """a third-party CUSTOM operator passes through unchanged whatever its options are: the REAL CustomOptionsSerializer.deserialize on a stand-in
     flatbuffer operator whose custom options are absent (the generated accessor then returns 0) or hold 0..3 bytes (symbolic choices), followed by
@@ -410,7 +536,7 @@ def custom_options_total(V):
     return [("the bytes written are the bytes read", written == [bytes(data)])]
 
 
-FUNCS = {"custom_options_total": custom_options_total, "summary_total": summary_total, "writer_total": writer_total, "purpose_total": purpose_total, "t_quant_scales": t_quant_scales, "main_config": main_config, "t_c16": t_c16, "snapshot_dtype": snapshot_dtype, "buffering_arith": buffering_arith, "t_resize": t_resize, "t_strides": t_strides, "t_broadcast": t_broadcast,
+FUNCS = {"t_resize_lowering": t_resize_lowering, "t_per_axis": t_per_axis, "fold_disconnect": fold_disconnect, "custom_options_total": custom_options_total, "summary_total": summary_total, "writer_total": writer_total, "purpose_total": purpose_total, "t_quant_scales": t_quant_scales, "main_config": main_config, "t_c16": t_c16, "snapshot_dtype": snapshot_dtype, "buffering_arith": buffering_arith, "t_resize": t_resize, "t_strides": t_strides, "t_broadcast": t_broadcast,
          "t_tconv": t_tconv, "main_errors": main_errors}
 
 
@@ -431,6 +557,12 @@ def instances(tier, seed):
     out.append(dict(key="writer_total", fn="writer_total", params={}))
     out.append(dict(key="summary_total", fn="summary_total", params={}))
     out.append(dict(key="custom_options_total", fn="custom_options_total", params={}))
+    out.append(dict(key="t_per_axis", fn="t_per_axis", params={}))
+    for kind in ("bilinear", "bilinear_align_corners", "nearest", "nearest_align_corners"):
+        for factor in (2, 4, 8):
+            out.append(dict(key="t_resize_lowering/%s/x%d" % (kind, factor), fn="t_resize_lowering", params=dict(kind=kind, factor=factor)))
+    for k in ("shape", "quantize_int8", "quantize_float"):
+        out.append(dict(key="fold_disconnect/%s" % k, fn="fold_disconnect", params=dict(kind=k)))
     for n in (2, 3):
         out.append(dict(key="purpose_total/%d" % n, fn="purpose_total", params=dict(nops=n)))
     from harness import c16, c18
